@@ -14,6 +14,9 @@ OUT = os.path.join(os.path.dirname(os.path.abspath(__file__)), "..", "lean", "Lz
 def src(p):
     s = open(os.path.join(REPO, p)).read()
     s = re.sub(r"//[^\n]*", "", s)
+    # the protocol event log of the MT code (verification hook, `mt_ev!` / `mt_attr!` in src/lib.rs: they expand to
+    # nothing unless the crate is built with the verification cfg) is treated like a comment
+    s = re.sub(r"\bmt_(?:ev|attr)!\((?:[^()]|\([^()]*\))*\);", "", s)
     return re.sub(r"\s+", " ", s)
 
 
